@@ -112,6 +112,22 @@ func boundaryCases() []GCase {
 			return obsWith([]GRes{a, b}, nil, chain(95, 103, 1))
 		})})
 	}
+	// a re-org re-includes a log in another block: the same transaction hash and index under another log block hash is
+	// another unit of work with another work id.  The long-lived instances see the log on the first fork in one round
+	// (as a result and as a proposal) and on the second fork in the next: every observation of the second round is
+	// valid, three of them share block 100, which is therefore the coordinated block of the new proposal
+	for fork := 0; fork <= 1; fork++ {
+		fork := fork
+		add(GCase{Family: "log-re-included-on-another-fork", N: 4, F: 1, Seq: uint64(16 + fork), Digest: 1, Obs: nObs(4, func(i int) GObs {
+			r := honest(1, 5100, 7)
+			r.Fork = fork
+			p := GProp{Kind: 1, Upk: 5101, Log: 8, Blk: 99, Hash: 1 + 49*3, ExtBlk: 3, Fork: fork}
+			if i == 3 {
+				return obsWith(nil, nil, hist)
+			}
+			return obsWith([]GRes{r}, []GProp{p}, hist)
+		})})
+	}
 	// perform data far above what a registry accepts: three disjoint pairs of oracles vouch for ten results of 70 KB
 	// each; every observation is valid and under its size limit, all thirty results are at quorum and far below the cap
 	// of 100 - agreement is by votes, never by a byte budget
